@@ -29,7 +29,8 @@ import (
 func pairingRule(p *load.Program, s *oblig.Set) {
 	n := 0
 	for _, fn := range allFuncs(p) {
-		var runs, comps []*ssa.Call
+		var runs []*ssa.Call
+		var comps []compTarget
 		for _, b := range fn.Blocks {
 			for _, ins := range b.Instrs {
 				c, ok := ins.(*ssa.Call)
@@ -40,8 +41,8 @@ func pairingRule(p *load.Program, s *oblig.Set) {
 				switch {
 				case strings.HasSuffix(nm, "vm.Type).Run"):
 					runs = append(runs, c)
-				case strings.HasSuffix(nm, "node.ByteCode"), strings.HasSuffix(nm, "node.ByteCodeNoStck"):
-					comps = append(comps, c)
+				default:
+					comps = append(comps, resolveCompile(c)...)
 				}
 			}
 		}
@@ -55,21 +56,21 @@ func pairingRule(p *load.Program, s *oblig.Set) {
 			var problems []string
 			reach := 0
 			for _, c := range comps {
-				if !reaches(c.Block(), r.Block()) {
+				if !reaches(c.call.Block(), r.Block()) {
 					continue
 				}
 				reach++
-				pushing := strings.HasSuffix(calleeName(&c.Call), "node.ByteCode")
+				pushing := c.pushing
 				if k, ok := arg.(*ssa.Const); ok {
 					if k.Value == nil || k.Value.Kind() != constant.Bool {
 						problems = append(problems, "Run is called with "+k.String())
 					} else if constant.BoolVal(k.Value) != pushing {
-						problems = append(problems, fmt.Sprintf("%s (%s) is followed by Run(%v)", shortName(calleeName(&c.Call)), p.Pos(c.Pos()), constant.BoolVal(k.Value)))
+						problems = append(problems, fmt.Sprintf("%s (%s) is followed by Run(%v)", shortName(c.name), p.Pos(c.call.Pos()), constant.BoolVal(k.Value)))
 					}
 					continue
 				}
-				if !guardedBy(c.Block(), arg, pushing) {
-					problems = append(problems, fmt.Sprintf("%s (%s) is not guarded by a test that %s is %v", shortName(calleeName(&c.Call)), p.Pos(c.Pos()), arg.Name(), pushing))
+				if !c.guarded(arg) {
+					problems = append(problems, fmt.Sprintf("%s (%s) is not guarded by a test that %s is %v", shortName(c.name), p.Pos(c.call.Pos()), arg.Name(), pushing))
 				}
 			}
 			if reach == 0 {
@@ -243,4 +244,84 @@ func guardedBy(b *ssa.BasicBlock, v ssa.Value, want bool) bool {
 		}
 	}
 	return false
+}
+
+// compTarget is one compile entry point a call may enter: the callee of a
+// direct call, or one incoming value of a function variable that is chosen
+// between the two entry points before it is called.
+type compTarget struct {
+	call    *ssa.Call
+	name    string
+	pushing bool
+	// for a chosen function value: the control edge on which it is chosen
+	pred, blk *ssa.BasicBlock
+}
+
+// guarded: the target is entered only when v has the value the target needs.
+func (c compTarget) guarded(v ssa.Value) bool {
+	if c.pred == nil {
+		return guardedBy(c.call.Block(), v, c.pushing)
+	}
+	// the edge pred -> blk is itself the outcome of a test of v
+	if len(c.pred.Instrs) > 0 {
+		if iff, ok := c.pred.Instrs[len(c.pred.Instrs)-1].(*ssa.If); ok {
+			cond, w := iff.Cond, c.pushing
+			for {
+				u, isNot := cond.(*ssa.UnOp)
+				if !isNot || u.Op != token.NOT {
+					break
+				}
+				cond, w = u.X, !w
+			}
+			ix := 1
+			if w {
+				ix = 0
+			}
+			if cond == v && c.pred.Succs[ix] == c.blk && c.pred.Succs[1-ix] != c.blk {
+				return true
+			}
+		}
+	}
+	return guardedBy(c.pred, v, c.pushing)
+}
+
+func isCompileName(n string) (pushing, ok bool) {
+	switch {
+	case strings.HasSuffix(n, "node.ByteCode"):
+		return true, true
+	case strings.HasSuffix(n, "node.ByteCodeNoStck"):
+		return false, true
+	}
+	return false, false
+}
+
+// resolveCompile lists the compile entry points call c may enter; nil when it
+// is not (known to be) a call of the compiler.
+func resolveCompile(c *ssa.Call) []compTarget {
+	if f := c.Call.StaticCallee(); f != nil {
+		if push, ok := isCompileName(f.String()); ok {
+			return []compTarget{{call: c, name: f.String(), pushing: push}}
+		}
+		return nil
+	}
+	if c.Call.IsInvoke() {
+		return nil
+	}
+	ph, ok := strip(c.Call.Value).(*ssa.Phi)
+	if !ok {
+		return nil
+	}
+	var out []compTarget
+	for i, e := range ph.Edges {
+		f, isF := strip(e).(*ssa.Function)
+		if !isF {
+			return nil
+		}
+		push, ok := isCompileName(f.String())
+		if !ok {
+			return nil
+		}
+		out = append(out, compTarget{call: c, name: f.String(), pushing: push, pred: ph.Block().Preds[i], blk: ph.Block()})
+	}
+	return out
 }
